@@ -62,16 +62,25 @@ struct Claims {
 	claim: usize,
 	fail: bool,
 	salt: u8,
+	/// which error kind a failing read reports (0 Other, 1 Interrupted, 2 WouldBlock)
+	kind: u8,
+	calls: u32,
 }
 impl Read for Claims {
 	fn read(&mut self, buf: &mut [u8]) -> io::Result<usize> {
+		self.calls += 1;
 		let mut i = 0;
 		while i < buf.len() {
 			buf[i] = self.salt ^ (i as u8);
 			i += 1;
 		}
-		if self.fail {
-			return Err(io::Error::from(io::ErrorKind::Other));
+		// the failure is reported once; a retry would succeed
+		if self.fail && self.calls == 1 {
+			return Err(io::Error::from(match self.kind {
+				1 => io::ErrorKind::Interrupted,
+				2 => io::ErrorKind::WouldBlock,
+				_ => io::ErrorKind::Other,
+			}));
 		}
 		Ok(self.claim)
 	}
@@ -88,12 +97,14 @@ fn g2_chunkreader_read() {
 	kani::assume(claim <= size);
 	let fail: bool = kani::any();
 	let salt: u8 = kani::any();
-	let mut cr = ChunkReader::new(Claims { claim, fail, salt });
+	let kind: u8 = kani::any();
+	kani::assume(kind <= 2);
+	let mut cr = ChunkReader::new(Claims { claim, fail, salt, kind, calls: 0 });
 	cr.captured.push(0x55);
 	let mut buf = [0u8; 4];
 	match cr.read(&mut buf[..size]) {
 		Ok(n) => {
-			assert!(!fail && n == claim, "G2: the inner reader's count is passed through");
+			assert!(!fail && n == claim && cr.reader.calls == 1, "G2: one read of the inner reader; its count is passed through; every reader error (of any kind) is reported to the parser, which treats it as fatal");
 			assert!(cr.captured.len() == 1 + n, "G2: exactly the bytes read are captured");
 			let mut j = 0;
 			while j < 4 {
@@ -107,7 +118,8 @@ fn g2_chunkreader_read() {
 		Err(e) => {
 			core::mem::forget(e);
 			assert!(fail && cr.captured.len() == 1, "G2: a failed read captures nothing");
-			kani::cover!(true, "G2 reader error");
+			assert!(cr.reader.calls == 1, "G2: the failing read is reported, not retried");
+			kani::cover!(kind == 1, "G2 reader error");
 		}
 	}
 	core::mem::forget(cr);
@@ -123,7 +135,7 @@ fn g2_chunkreader_overclaim_panics() {
 	kani::assume(size <= 4);
 	let claim: usize = kani::any();
 	kani::assume(claim > size);
-	let mut cr = ChunkReader::new(Claims { claim, fail: false, salt: 0 });
+	let mut cr = ChunkReader::new(Claims { claim, fail: false, salt: 0, kind: 0, calls: 0 });
 	let mut buf = [0u8; 4];
 	let r = cr.read(&mut buf[..size]);
 	core::mem::forget(r);
